@@ -1075,3 +1075,24 @@ Theorem member_accepted_inline : forall F g n t a j f,
   memberb E f a j = true -> wf_json j = true -> acc (de is_upper R n t j).
 Proof. intros F g. exact (PB_from_PA F (PA_all F) g). Qed.
 End DeKnot.
+
+(* ============================ the library layer on its own ====================================== *)
+Lemma lib_ok_mono R : forall t, lib_ok t = true -> mono_ty R t = true.
+Proof.
+  unfold mono_ty.
+  induction t as [l|t IH|t IH|m t IH|ts IH|k v IHk IHv|t IH|t e IHt IHe|t IH|id targs IH|i|m] using rty_ind';
+    cbn [lib_ok pmono]; intros H; auto; try discriminate.
+  - rewrite forallb_forall in *. rewrite Forall_forall in IH. intros x Hx. auto.
+  - apply andb_true_iff in H as [H1 H2]. rewrite (IHv H2), andb_true_r. destruct k as [[| | | | |]| | | | | | | | | | |]; try discriminate; reflexivity.
+  - apply andb_true_iff in H as [H1 H2]. rewrite (IHt H1), (IHe H2). reflexivity.
+Qed.
+
+(* library type expressions of any nesting depth (no derived type inside): every member of the reported type is read *)
+Theorem lib_member_accepted E dd t a j f :
+  lib_ok t = true -> small_arr t = true -> name_of [] t = Ok a -> memberb E f a j = true -> wf_json j = true ->
+  acc (de_ty [] dd t j).
+Proof.
+  intros Hok Hsm Ha Hmem Hwf.
+  eapply (lib_de [] E dd f); [|apply lib_ok_mono; exact Hok | exact Hsm | exact Ha | apply le_n | exact Hmem | exact Hwf].
+  intros id d args l j0 f0 Hlk. discriminate Hlk.
+Qed.
